@@ -96,62 +96,116 @@ func scenarioC13(r *Run) {
 		return reuse + " " + long
 	}
 
-	openSession := func(s *c13sess) bool {
-		s.gen++
-		if c.Chance(1, 3, "new-address") {
-			s.ip = fmt.Sprintf("10.0.2.%d", 50+10*s.idx+s.gen)
+	// openMany opens the listed sessions. One session: the ordinary sequential case. Several: their
+	// handshakes run at the same time - the driver lets datagrams of different clients arrive back to
+	// back (Burst) and every lock operation of the code under test is a seeded scheduling point, so
+	// that the server's handlers interleave at lock granularity.
+	type pending struct {
+		s    *c13sess
+		dc   *sdns.ClientDnsConnection
+		err  error
+		done bool
+	}
+	openMany := func(list []*c13sess) bool {
+		var pend []*pending
+		for _, s := range list {
+			s.gen++
+			if c.Chance(1, 3, "new-address") {
+				s.ip = fmt.Sprintf("10.0.2.%d", 50+10*s.idx+s.gen)
+			}
+			delete(silenced, s.ip)
+			dc, err := dialDnsClient(r, addr, s.ip)
+			if err != nil {
+				r.Fail("world-setup", "dns client: %v", err)
+				return false
+			}
+			r.OnCleanup(func() { dc.Close() })
+			p := &pending{s: s, dc: dc}
+			pend = append(pend, p)
+			go func() {
+				p.err = dc.Handshake()
+				p.done = true
+			}()
 		}
-		delete(silenced, s.ip)
-		dc, err := dialDnsClient(r, addr, s.ip)
-		if err != nil {
-			r.Fail("world-setup", "dns client: %v", err)
-			return false
+		p2 := pol
+		if len(list) > 1 {
+			q := *pol
+			q.Burst = 4
+			p2 = &q
+			r.YieldsOn("yield-seed")
+			r.Count("concurrent_opens")
 		}
-		r.OnCleanup(func() { dc.Close() })
-		var hsErr error
-		done := false
-		go func() {
-			hsErr = dc.Handshake()
-			done = true
-		}()
-		out := r.Drive(pol, func() bool { return done }, nil, 3*time.Minute, 30*time.Minute)
-		if !done || hsErr != nil {
-			r.FailSig("handshake-on-clean-path", sigHist(), "%s: session %d could not be opened on a clean path after history %v: %v", out, s.idx, ops, hsErr)
-			return false
+		out := r.Drive(p2, func() bool {
+			for _, p := range pend {
+				if !p.done {
+					return false
+				}
+			}
+			return true
+		}, nil, 3*time.Minute, 30*time.Minute)
+		r.YieldsOff()
+		how := "sequential"
+		if len(list) > 1 {
+			how = "concurrent"
 		}
-		drain()
-		s.dc = dc
-		s.uid = dc.SimUserId()
-		s.srv = nil
-		for i, cn := range pool {
-			if id, ok := sdns.SimServerUserId(cn); ok && id == s.uid {
-				s.srv = cn
-				pool = append(pool[:i], pool[i+1:]...)
-				break
+		for _, p := range pend {
+			if p.done && p.err == nil {
+				p.s.uid = p.dc.SimUserId()
 			}
 		}
-		if s.srv == nil {
-			r.Fail("world-setup", "no accepted server connection with id %d", s.uid)
-			return false
+		// (1) distinct identifiers among live sessions, including those opened in the same batch
+		for i, p := range pend {
+			if !p.done || p.err != nil {
+				continue
+			}
+			for _, o := range sess {
+				if o != p.s && (o.state == "open" || o.state == "silent") && o.uid == p.s.uid {
+					r.FailSig("duplicate-session-id", sigHist()+" open="+how, "session %d was given identifier %d, which live session %d holds (history %v)", p.s.idx, p.s.uid, o.idx, ops)
+					return false
+				}
+			}
+			for _, q := range pend[:i] {
+				if q.done && q.err == nil && q.s.uid == p.s.uid {
+					r.FailSig("duplicate-session-id", sigHist()+" open="+how, "sessions %d and %d, opened at the same time, were both given identifier %d (history %v)", q.s.idx, p.s.idx, p.s.uid, ops)
+					return false
+				}
+			}
 		}
-		keyC, keyS := AppKey(r.Seed, 10*s.idx+s.gen), TargetKey(r.Seed, s.idx, s.gen)
-		s.pc = NewPeer(r, fmt.Sprintf("c%d.%d", s.idx, s.gen), "app", dc, keyC, []Candidate{keyS})
-		s.ps = NewPeer(r, fmt.Sprintf("s%d.%d", s.idx, s.gen), "target", s.srv, keyS, []Candidate{keyC})
-		r.registerPeer(s.pc)
-		r.registerPeer(s.ps)
-		s.wantC, s.wantS = 0, 0
-		s.state = "open"
-		s.history = append(s.history, fmt.Sprintf("open:%d", s.uid))
-		// (1) distinct identifiers among live sessions
-		for _, o := range sess {
-			if o != s && (o.state == "open" || o.state == "silent") && o.uid == s.uid {
-				r.FailSig("duplicate-session-id", sigHist(), "session %d was given identifier %d, which live session %d holds (history %v)", s.idx, s.uid, o.idx, ops)
+		for _, p := range pend {
+			if !p.done || p.err != nil {
+				r.FailSig("handshake-on-clean-path", sigHist()+" open="+how, "%s: session %d could not be opened on a clean path after history %v: %v", out, p.s.idx, ops, p.err)
 				return false
 			}
 		}
-		r.Count("sessions_opened")
+		drain()
+		for _, p := range pend {
+			s := p.s
+			s.dc = p.dc
+			s.srv = nil
+			for i, cn := range pool {
+				if id, ok := sdns.SimServerUserId(cn); ok && id == s.uid {
+					s.srv = cn
+					pool = append(pool[:i], pool[i+1:]...)
+					break
+				}
+			}
+			if s.srv == nil {
+				r.Fail("world-setup", "no accepted server connection with id %d", s.uid)
+				return false
+			}
+			keyC, keyS := AppKey(r.Seed, 10*s.idx+s.gen), TargetKey(r.Seed, s.idx, s.gen)
+			s.pc = NewPeer(r, fmt.Sprintf("c%d.%d", s.idx, s.gen), "app", s.dc, keyC, []Candidate{keyS})
+			s.ps = NewPeer(r, fmt.Sprintf("s%d.%d", s.idx, s.gen), "target", s.srv, keyS, []Candidate{keyC})
+			r.registerPeer(s.pc)
+			r.registerPeer(s.ps)
+			s.wantC, s.wantS = 0, 0
+			s.state = "open"
+			s.history = append(s.history, fmt.Sprintf("open:%d", s.uid))
+			r.Count("sessions_opened")
+		}
 		return true
 	}
+	openSession := func(s *c13sess) bool { return openMany([]*c13sess{s}) }
 
 	// transfer moves a few bytes both ways on every listed session; all must complete.
 	transfer := func(which []*c13sess, why string) bool {
@@ -323,8 +377,20 @@ func scenarioC13(r *Run) {
 		op := c.Pick(10, "op")
 		switch {
 		case op <= 1 && (s.state == "none" || s.state == "closed" || s.state == "silent"):
-			ops = append(ops, fmt.Sprintf("open%d", s.idx))
-			if !openSession(s) {
+			batch := []*c13sess{s}
+			if c.Chance(1, 2, "open-others-too") {
+				for _, o := range sess {
+					if o != s && (o.state == "none" || o.state == "closed" || o.state == "silent") {
+						batch = append(batch, o)
+					}
+				}
+			}
+			name := "open"
+			for _, o := range batch {
+				name += fmt.Sprint(o.idx)
+			}
+			ops = append(ops, name)
+			if !openMany(batch) {
 				return
 			}
 		case op <= 3 && s.state == "open":
